@@ -33,7 +33,7 @@ class Check(PropertyCheck):
 
     def generate(self, rng, n, tier):
         for i in range(n):
-            if i % 16 == 5:
+            if i % 64 == 5:
                 yield Scenario(["new", f"mark gcflex {rng.randint(0, 10**6)}"], {"family": "gcflex", "accepted": 3, "rejected": 3,
                                                                                "bad_kinds": ["bad_machine", "gc-loop"]})
                 continue
